@@ -293,14 +293,30 @@ def _def_as_lambda(fn: ast.FunctionDef, env: dict[str, Term]) -> Term | None:
     if a.vararg or a.kwarg or a.kwonlyargs or a.defaults:
         return None
     body = [s for s in fn.body if not (isinstance(s, ast.Expr) and isinstance(s.value, ast.Constant))]
-    if not body or not isinstance(body[-1], ast.Return) or body[-1].value is None:
-        return None
-    if not all(isinstance(s, (ast.Assign, ast.AnnAssign)) for s in body[:-1]):
-        return None
     names = [p.arg for p in a.posonlyargs + a.args]
     inner = {k: v for k, v in env.items() if k not in names}
-    inner = path_env(Path([('stmt', s) for s in body[:-1]]), inner)
-    return ('lambda', tuple(names), term(body[-1].value, inner))
+    t = _return_term(body, inner)
+    return ('lambda', tuple(names), t) if t is not None else None
+
+
+def _return_term(body: list[ast.stmt], env: dict[str, Term]) -> Term | None:
+    """The value returned by straight-line assignments and if / return chains, as one (conditional) term."""
+    env = dict(env)
+    for i, s in enumerate(body):
+        if isinstance(s, ast.Return):
+            return term(s.value, env) if s.value is not None else ('const', 'None')
+        if isinstance(s, (ast.Assign, ast.AnnAssign)):
+            env = path_env(Path([('stmt', s)]), env)
+            continue
+        if isinstance(s, ast.If):
+            rest = body[i + 1:]
+            a = _return_term(s.body + rest, env)
+            b = _return_term(s.orelse + rest, env)
+            if a is None or b is None:
+                return None
+            return ('ifexp', term(s.test, env), a, b)
+        return None
+    return None
 
 
 def facts(path: Path, env0: dict[str, Term] | None = None, resolver=None, _depth: int = 0) -> set[tuple]:
